@@ -14,7 +14,7 @@ base = {'a', 'sp', 'nl', 'cb', 'ob', 'b'}
 seed = int(os.environ.get('SEED', '1'))
 c = core.Check('TSTP', 'quick', seed)
 flow.make_files()
-cfg = tlc.cfg_text(spec='PSpec', constants={'Sym': syms, 'MaxSym': 9, 'MaxDepth': 3, 'Free': False, 'Mode': 'normal', 'Base': base, 'MaxSpecial': 2}, invariants=['SrcIsConc', 'AnchorsInSrc', 'PDump'])
+cfg = tlc.cfg_text(spec='PSpec', constants={'Sym': syms, 'MaxSym': 9, 'MaxDepth': 3, 'Free': False, 'Mode': 'normal', 'Base': base, 'MaxSpecial': int(os.environ.get('NSPECIAL', '2'))}, invariants=['SrcIsConc', 'AnchorsInSrc', 'PDump'])
 r = c.tlc('pair sweep', 'GenPair', cfg, simulate=num, depth=12, seed=seed, workers=8)
 seen = {}
 for b in r.json('@@'):
